@@ -344,7 +344,7 @@ func c14V2() c14sdk {
 
 // c14KeyOps are the calls whose Key structure stays in the caller's hands: the key of an item that
 // UpdateItem creates is the one place where a request's key becomes stored data.
-var c14KeyOps = []string{"UpdateItem(creates the item)", "UpdateItem(existing item)", "DeleteItem(condition false)", "GetItem"}
+var c14KeyOps = []string{"UpdateItem(creates the item)", "UpdateItem(existing item)", "DeleteItem(condition false)", "GetItem", "Scan(Limit 1).LastEvaluatedKey", "Query(Limit 1).LastEvaluatedKey"}
 
 var c14KeyTypes = []struct {
 	t    string
@@ -397,8 +397,21 @@ func c14KeyRun(sdk, op string, kt int) ([]mutation, func() string, bool) {
 			}
 		case "GetItem":
 			_, err = c.GetItem(&ddb1.GetItemInput{TableName: aws1.String("tab"), Key: held})
+		case "Scan(Limit 1).LastEvaluatedKey":
+			// the key structure a read hands out: LastEvaluatedKey of a page that filled
+			var o *ddb1.ScanOutput
+			o, err = c.Scan(&ddb1.ScanInput{TableName: aws1.String("tab"), Limit: aws1.Int64(1)})
+			if err == nil {
+				held = o.LastEvaluatedKey
+			}
+		case "Query(Limit 1).LastEvaluatedKey":
+			var o *ddb1.QueryOutput
+			o, err = c.Query(&ddb1.QueryInput{TableName: aws1.String("tab"), Limit: aws1.Int64(1), KeyConditionExpression: aws1.String("h = :h"), ExpressionAttributeValues: map[string]*ddb1.AttributeValue{":h": drv.ToV1(k.v)}})
+			if err == nil {
+				held = o.LastEvaluatedKey
+			}
 		}
-		if err != nil {
+		if err != nil || len(held) == 0 {
 			return nil, nil, false
 		}
 		mutsV1Item(held, &muts)
@@ -443,8 +456,20 @@ func c14KeyRun(sdk, op string, kt int) ([]mutation, func() string, bool) {
 		}
 	case "GetItem":
 		_, err = c.GetItem(ctx, &ddb2.GetItemInput{TableName: aws2.String("tab"), Key: held})
+	case "Scan(Limit 1).LastEvaluatedKey":
+		var o *ddb2.ScanOutput
+		o, err = c.Scan(ctx, &ddb2.ScanInput{TableName: aws2.String("tab"), Limit: aws2.Int32(1)})
+		if err == nil {
+			held = o.LastEvaluatedKey
+		}
+	case "Query(Limit 1).LastEvaluatedKey":
+		var o *ddb2.QueryOutput
+		o, err = c.Query(ctx, &ddb2.QueryInput{TableName: aws2.String("tab"), Limit: aws2.Int32(1), KeyConditionExpression: aws2.String("h = :h"), ExpressionAttributeValues: map[string]types2.AttributeValue{":h": drv.ToV2(k.v)}})
+		if err == nil {
+			held = o.LastEvaluatedKey
+		}
 	}
-	if err != nil {
+	if err != nil || len(held) == 0 {
 		return nil, nil, false
 	}
 	mutsV2Item(held, &muts)
@@ -584,7 +609,7 @@ func C14(run *ev.Run, tier string) map[string]interface{} {
 		"evaluations":             evals,
 		"distinct_nontrivial":     locations,
 		"value_trees":             len(trees),
-		"rule":                    "for every value tree (boundary leaves and lists/maps with 0-2 children over a representative set) and every mutable location of its SDK representation (string/bool pointers, every byte of binaries, set members, list elements, map entries; member structs of SDK v2), in every scenario (inputs of PutItem, UpdateItem values, BatchWriteItem; outputs of GetItem, Query, Scan, UpdateItem and the ConditionalCheckFailed item): perform the call on a fresh client, mutate that one location, read the item again; plus output-then-later-write for every output scenario; plus the Key map passed to UpdateItem (creating the item / on an existing item), DeleteItem (rejected) and GetItem for S, N and B hash+range keys, every location mutated after the call; a case is distinct by (sdk, scenario, tree, location)",
+		"rule":                    "for every value tree (boundary leaves and lists/maps with 0-2 children over a representative set) and every mutable location of its SDK representation (string/bool pointers, every byte of binaries, set members, list elements, map entries; member structs of SDK v2), in every scenario (inputs of PutItem, UpdateItem values, BatchWriteItem; outputs of GetItem, Query, Scan, UpdateItem and the ConditionalCheckFailed item): perform the call on a fresh client, mutate that one location, read the item again; plus output-then-later-write for every output scenario; plus the Key map passed to UpdateItem (creating the item / on an existing item), DeleteItem (rejected) and GetItem, and the LastEvaluatedKey returned by Scan and Query with Limit 1, for S, N and B hash+range keys, every location mutated after the call; a case is distinct by (sdk, scenario, tree, location)",
 		"oracle":                  "every later GetItem returns the item as written (for UpdateItem values: as the same call stores it on a client whose caller mutates nothing), since the mutation was never passed through the API; a returned structure converts to the same value before and after later writes",
 		"samples":                 []interface{}{"v1 input:PutItem {v: L[S in, B 09]} mutate byte of B", "v2 output:Scan {v: BS[01,0203]} mutate member of BS replaced"},
 		"exhaustive":              true,
